@@ -772,7 +772,10 @@ def run(ctx, what, n_cases, n_ops, ref=False, cases=None):
             for k, (a, b) in enumerate(zip(o, o2)):
                 if a["t"] == "read" and a["method"] == "derivative" and b.get("t") == "read":
                     if not (abs(a["v"] - b["v"]) <= 1e-11 * abs(a["v"]) + 1e-300 and
-                            abs(a["e"] - b["e"]) <= 1e-9 * abs(a["e"]) + 1e-300):
+                            abs(a["e"] - b["e"]) <= 1e-9 * abs(a["e"]) + 1e-300 + (
+                                # exactly cancelling variance at a correlation of +-1: see judge()
+                                1e-9 * abs(a["v"]) if any(abs(unbits(r_[2])) == 1.0
+                                                          for r_ in (c.get("rho") or [])) else 0.0)):
                         fs.append({"signature": "c15:seed-dependent", "oracle": "independent",
                                    "kind": "violation",
                                    "what": "op {}: derivative-method result differs between two "
